@@ -1118,8 +1118,83 @@ def probe_weighted(ctx, rng):
             ctx.agree(op, ('wprob', op))
 
 
+def corpus_replay(ctx):
+    """regression corpus /verif/corpus/C01/*.json: the recorded failing input of every repaired defect, replayed first on every run (both tiers)
+    through the same oracles as the probe, so that a revert of a repair is re-detected deterministically"""
+    import glob, json, os, torch
+    Mm = M()
+    classes = {c.name: c for c in (Softplus, ExpMap, Interval, Ball, SphereQ, SphereC, Softmax, ProbSphere, PsdChol, PsdEns, SymMat, SoExp, SoCayley,
+                                   StPolar, StQR, StCholL, StEuler)}
+    files = sorted(glob.glob(os.path.join(common.VERIF, 'corpus', 'C01', '*.json')))
+    n = 0
+    for f in files:
+        doc = json.load(open(f))
+        for e in doc['entries']:
+            n += 1
+            tag = os.path.basename(f)
+            if e['kind'] == 'map':
+                spec = classes[e['map']](**e['options'])
+                f32 = e['dtype'] == 'float32'
+                shp = tuple(e['batch_shape'])
+                th = np.array(e['theta'], dtype=np.float64).reshape(shp + (spec.nparam(),))
+                x = to_backend(th, e['backend'], f32)
+                y = guarded(lambda: to_np(spec.call(x)))
+                rp = replay_of(spec, e['backend'], f32, shp, th); rp['corpus'] = tag
+                if isinstance(y, str):
+                    ctx.fail(f'{spec.name}:raises', f'[corpus {tag}] {spec.key()} raised {y} ({e["backend"]}, {e["dtype"]}, batch {shp})', rp); continue
+                if y.shape != shp + spec.out_shape():
+                    ctx.fail(f'{spec.name}:shape', f'[corpus {tag}] {spec.key()} returned shape {y.shape}', rp); continue
+                ok = True
+                rows = th.reshape(-1, spec.nparam())
+                for s_, yy in enumerate(y.reshape((-1,) + spec.out_shape())):
+                    yy = yy.astype(np.complex128 if np.iscomplexobj(yy) else np.float64)
+                    if not np.all(np.isfinite(yy)):
+                        key = 'trace1psd-cholesky:float32-underflow' if f32_underflow(spec, f32, rows[s_]) else f'{spec.name}:finite'
+                        ctx.fail(key, f'[corpus {tag}] {spec.key()} returned non-finite values ({e["backend"]}, {e["dtype"]}, theta={rows[s_].tolist()})', rp); ok = False; continue
+                    for key, good, what in spec.checks(rows[s_], yy, PROBE32 if f32 else PROBE64):
+                        if not good:
+                            ctx.fail(key, f'[corpus {tag}] {spec.key()} ({e["backend"]}, {e["dtype"]}, theta={rows[s_].tolist()}): {what}', rp); ok = False
+                if ok:
+                    ctx.probe_ok(('corpus', tag, n))
+            elif e['kind'] == 'separable':
+                dt = getattr(torch, e['dtype'])
+                desc = f'SeparableDensityMatrix({e["dimA"]},{e["dimB"]},{e["num_cha"]},{e["batch_size"]},{dt})'
+                torch.manual_seed(n)
+                sm = guarded(lambda: Mm.SeparableDensityMatrix(e['dimA'], e['dimB'], e['num_cha'], e['batch_size'], dtype=dt))
+                with torch.no_grad():
+                    out = sm if isinstance(sm, str) else guarded(lambda: sm())
+                if isinstance(out, str):
+                    ctx.fail('separable:forward-raises', f'[corpus {tag}] {desc}: {out}', dict(module=desc, corpus=tag)); continue
+                R = to_np(out).astype(np.complex128).reshape(-1, e['dimA'] * e['dimB'], e['dimA'] * e['dimB'])
+                if any(abs(np.trace(r) - 1) > PROBE32 or np.abs(r - r.conj().T).max() > PROBE32 or np.linalg.eigvalsh((r + r.conj().T) / 2).min() < -PROBE32 for r in R):
+                    ctx.fail('separable:mixture', f'[corpus {tag}] {desc}: output is not a density matrix', dict(module=desc, corpus=tag))
+                else:
+                    ctx.probe_ok(('corpus', tag, n))
+            elif e['kind'] == 'weighted':
+                wt = {'torch-int64': lambda v: torch.tensor(v, dtype=torch.int64), 'torch-int32': lambda v: torch.tensor(v, dtype=torch.int32),
+                      'int64': lambda v: np.array(v, dtype=np.int64), 'float64': lambda v: np.array(v, dtype=np.float64)}[e['weight_type']](e['weight'])
+                dt = getattr(torch, e['dtype'])
+                desc = f'DiscreteProbability({e["dim"]},{e["method"]},weight={e["weight_type"]}{e["weight"]},batch_size={e["batch_size"]},{dt})'
+                torch.manual_seed(n)
+                m = guarded(lambda: Mm.DiscreteProbability(e['dim'], e['batch_size'], e['method'], weight=wt, dtype=dt))
+                with torch.no_grad():
+                    out = m if isinstance(m, str) else guarded(lambda: to_np(m()))
+                if isinstance(out, str):
+                    ctx.fail('weighted-probability:forward-raises', f'[corpus {tag}] {desc}: {out}', dict(module=desc, corpus=tag)); continue
+                o = out.astype(np.float64).reshape(-1, e['dim'])
+                wn = np.array(e['weight'], dtype=np.float64)
+                tol = PROBE64 if dt == torch.float64 else PROBE32
+                if not np.all(np.isfinite(o)) or o.min() < 0 or np.abs(o @ wn - 1).max() > tol:
+                    ctx.fail('weighted-probability:sum_w_p=1', f'[corpus {tag}] {desc}: sum_i w_i p_i = {(o @ wn)[0]!r} (required 1 to {tol})',
+                             dict(module=desc, weight=e['weight'], theta=to_np(m.theta).reshape(-1).tolist(), corpus=tag))
+                else:
+                    ctx.probe_ok(('corpus', tag, n))
+    ctx.extra['corpus_entries_replayed'] = n
+
+
 def probe(ctx):
     rng = np.random.default_rng(ctx.np_seed + 17)
+    corpus_replay(ctx)
     probe_constraints(ctx, rng)
     probe_modules(ctx, rng)
     probe_compose(ctx, rng)
